@@ -695,8 +695,22 @@ class UrlScm(Scm):
             if os.path.isfile(destination):
                 os.chmod(destination, self.__fileMode)
 
-        # The real work is done in invoke() below. It will fail if the file
-        # does not match.
+        # The real work is done in invoke() below. It does not touch an
+        # existing file, though. If the file does not match the (changed)
+        # digests, an inline switch is not possible. The stale file has to
+        # vanish so that a fresh checkout fetches it again.
+        destination = invoker.joinPath(self.__dir, self.__fn)
+        separate = self.__getExtractor() is not None and self.__separateDownload
+        if separate:
+            destination = invoker.joinPath(os.pardir, "download", self.__dir, self.__fn)
+        if os.path.isfile(destination):
+            for digest, hasher in ((self.__digestSha1, hashlib.sha1),
+                                   (self.__digestSha256, hashlib.sha256),
+                                   (self.__digestSha512, hashlib.sha512)):
+                if digest and hashFile(destination, hasher).hex() != digest:
+                    if separate: os.unlink(destination)
+                    invoker.fail("Existing file does not match new digest:", destination)
+
         return True
 
     async def invoke(self, invoker, workspaceCreated):
